@@ -357,10 +357,19 @@ where
                 .sqrt();
             let plus = deriv_quotient + sqrt;
             let minus = deriv_quotient - sqrt;
-            let a = if plus.abs() > minus.abs() {
-                order / plus
+            let denominator = if plus.abs() > minus.abs() {
+                plus
             } else {
-                order / minus
+                minus
+            };
+            let a = if denominator.abs() > N::RealField::zero() {
+                order / denominator
+            } else {
+                // Both denominators vanish (first and second derivative are zero, e.g. x^n - c
+                // at the origin): step off the stationary point instead of dividing by zero
+                let radius = N::RealField::one() + guess.abs();
+                let angle = N::RealField::from_usize(k + 1).unwrap();
+                Complex::<N::RealField>::new(radius * angle.cos(), radius * angle.sin())
             };
             guess -= a;
             k += 1;
